@@ -8,6 +8,7 @@
 -/
 import CSD.Lemmas.PFCMeta
 import CSD.Lemmas.HashBlocks
+import CSD.Lemmas.HashRP
 
 namespace CSD.Props.C01
 open CSD CSD.PFC
@@ -108,6 +109,20 @@ theorem blocks_extract_then_locate (cutSize : Nat) (tsizeOf : Nat → Nat) (S : 
     ∃ s, s ∈ S ∧ Hash.extractBlocks (Hash.buildBlocks cutSize tsizeOf S) i = some s ∧
       Hash.locateBlocks (Hash.buildBlocks cutSize tsizeOf S) s = i :=
   Hash.blocks_extract_then_locate ok i h1 h2
+
+/-- HASHRPDAC end to end (hash table + DAC positions + grammar): the real `locate`, which compares
+the query with the string of a cell through `extractStringAndCompareDAC` at the DAC position given
+by the cell's rank, returns for every member an ID in `[1,n]` whose `extract` is that member —
+for every well-founded grammar and every symbol sequences that expand to the stored strings. -/
+theorem hashrpdac_locate_then_extract (tsize0 : Nat) (S : List Str) (hnd : S.Nodup) (hcap : S.length ≤ tsize0)
+    (hacc : Hash.accepted (Hash.build tsize0 S).tsize = true) (hS : ∀ s ∈ S, PFC.nulFree s)
+    (g : RePair.Grammar) (seqs : List (List Nat)) (st : Hash.StoresRP (Hash.build tsize0 S) g seqs)
+    (s : Str) (hs : s ∈ S) :
+    ∃ id, Hash.locateRP (Hash.build tsize0 S) g seqs s = some id ∧ 1 ≤ id ∧ id ≤ S.length ∧
+      Hash.extract (Hash.build tsize0 S) id = some s := by
+  have gd := Hash.goodDict_build tsize0 S hnd hcap hacc
+  obtain ⟨h1, h2, h3⟩ := hash_locate_then_extract tsize0 S hnd hcap hacc s hs
+  exact ⟨_, Hash.locateRP_eq gd hS g seqs st s (hS s hs), h1, h2, h3⟩
 
 /-- Non-vacuity of the Blocks hypotheses: four sorted strings cut into blocks of about 4 bytes. -/
 example : Hash.PartsOK 4 (fun n => n + 1) [[0x61], [0x61, 0x62], [0x62], [0x63, 0x63]] :=
